@@ -61,6 +61,9 @@ pub fn execute(
     if backend == Backend::RealFs {
         return execute_real(&opts, &entries, walk_seed, hash_seed, rerun);
     }
+    if backend == Backend::RealLib {
+        return execute_real_lib(opts, entries, walk_seed, hash_seed, rerun);
+    }
     exec::on_carrier(hash_seed, move || {
         let store = Store::new(backend, walk_seed, &entries);
         let before = store.snapshot();
@@ -98,6 +101,55 @@ pub fn execute(
             rerun,
         }
     })
+}
+
+/// The process-wide working directory is shared: one real-FS library execution at a time.
+static CWD_LOCK: std::sync::Mutex<()> = std::sync::Mutex::new(());
+
+/// Tier B': the real `Source::FileSystem` arm through the library API, in this process,
+/// with a tmpfs scratch directory as working directory (covers what the command line
+/// cannot express: no output at all, fail-fast, a configuration object).
+fn execute_real_lib(
+    opts: crate::model::OptSpec,
+    entries: Vec<FsEntry>,
+    walk_seed: u64,
+    hash_seed: u64,
+    rerun: bool,
+) -> Result<Exec, String> {
+    use crate::tierb;
+    let guard = CWD_LOCK.lock().unwrap_or_else(|e| e.into_inner());
+    let scratch = tierb::Scratch::new()?;
+    tierb::materialize(&scratch.root, &entries, walk_seed)?;
+    let root = scratch.root.clone();
+    let result = exec::on_carrier(hash_seed, move || {
+        let before = tierb::snapshot(&root);
+        if std::env::set_current_dir(&root).is_err() {
+            return Err("cannot enter the scratch directory".to_owned());
+        }
+        let resources = darklua_core::Resources::from_file_system();
+        let outcome = exec::fresh_process(&resources, &opts);
+        let after = tierb::snapshot(&root);
+        let rerun = if rerun {
+            let outcome2 = exec::fresh_process(&resources, &opts);
+            Some((outcome2, tierb::snapshot(&root), Vec::new()))
+        } else {
+            None
+        };
+        let _ = std::env::set_current_dir("/");
+        Ok(Exec {
+            outcome,
+            before,
+            after,
+            log: Vec::new(),
+            fired: Vec::new(),
+            probes: exec::take_probes(),
+            rerun,
+        })
+    });
+    let _ = std::env::set_current_dir("/");
+    drop(guard);
+    drop(scratch);
+    result?
 }
 
 /// Tier B: the same invocation through the real binary on a tmpfs scratch directory.
@@ -358,7 +410,10 @@ pub fn check(scn: &C11Scenario, stats: &mut RunStats) -> Result<Vec<Violation>, 
         return Ok(violations);
     }
     stats.stub_validated = false;
-    if scn.backend == Backend::RealFs
+    // (not with fail-fast: which files ran before the stop depends on the enumeration
+    // order, which is not the same function of `walk_seed` on the two back ends)
+    if matches!(scn.backend, Backend::RealFs | Backend::RealLib)
+        && !scn.opts.fail_fast
         && !scn.entries.iter().any(|e| matches!(e.body, Body::Symlink(_)))
     {
         // validate the SimFs stub against the real arm on the same scenario
@@ -952,6 +1007,8 @@ pub fn generate(seed: u64) -> C11Scenario {
 
     let backend = if crate::tierb::available() && rk.chance(1, 8) {
         Backend::RealFs
+    } else if rk.chance(1, 10) {
+        Backend::RealLib
     } else if rk.chance(1, 6) {
         Backend::Memory
     } else {
@@ -1051,7 +1108,7 @@ pub fn generate(seed: u64) -> C11Scenario {
                 }
                 continue;
             }
-            let pick = if real {
+            let pick = if real || backend == Backend::RealLib {
                 *rf.pick(&[0usize, 1, 2, 3, 4, 8, 9, 10, 10])
             } else if sim {
                 rf.below(10)
